@@ -662,3 +662,260 @@ def E1(b):
                             lambda: dict(ctx, change=label, body=body, after=body2, essence=e0, raised=error),
                             excuse=F3 if error and error.startswith('TypeError') and through_scalar else None)
                 b.check('pure', json.dumps(body, sort_keys=True) == frozen, lambda: dict(ctx, body=body))
+
+
+# =========================================================================== E2
+def _strip_absent(x):
+    """Concrete JSON from a solver model: drop <absent> entries.  A model may give an object a non-absent DEFAULT value
+    ("every other key maps to v"); it is kept as one ordinary extra key, so that the object is non-empty in the concrete
+    re-run exactly as it is for the solver."""
+    from pyvc.values import Absent
+    if isinstance(x, dict):
+        return {k: _strip_absent(v) for k, v in x.items() if not isinstance(v, Absent)}
+    if isinstance(x, list):
+        return [_strip_absent(v) for v in x]
+    return x
+
+
+def ref_remove_empty_stanzas(essence):
+    """Reference (plain Python, written from the docstring "remove the parent stanzas if they are empty"): returns a new dict."""
+    e = copy.deepcopy(essence)
+    md = e.get('metadata')
+    if isinstance(md, dict):
+        for k in ('annotations', 'labels'):
+            if k in md and not md[k]:
+                del md[k]
+    if 'metadata' in e and not e['metadata']:
+        del e['metadata']
+    if 'status' in e and not e['status']:
+        del e['status']
+    return e
+
+
+class _SymContainer:
+    """A finite set of concrete strings that can be asked about a symbolic string (membership forks)."""
+    def __init__(self, members):
+        self.members = tuple(sorted(members))
+
+    def __contains__(self, x):
+        return bool(self.contains(x))
+
+    def contains(self, x):
+        return Or(*[Eq(x, m) for m in self.members]) if self.members else False
+
+    def __iter__(self):
+        return iter(self.members)
+
+
+class _AbstractCollector:
+    """`prefixes` at an arbitrary loop head: whatever was collected before; records what this iteration adds."""
+    def __init__(self):
+        self.added = []
+
+    def add(self, x):
+        self.added.append(x)
+
+    def __iter__(self):
+        return iter(self.added)
+
+
+class _AbstractAnnotations:
+    """metadata.annotations of a body / patch: membership of the one key in play is a free boolean; writes are recorded."""
+    def __init__(self, member):
+        self.member, self.asked, self.written = member, [], []
+
+    def __contains__(self, key):
+        self.asked.append(key)
+        return bool(self.member)
+
+    def __setitem__(self, key, value):
+        self.written.append((key, value))
+
+
+@harness('E2', targets=['kopf._cogs.configs.conventions.StorageStanzaCleaner.remove_empty_stanzas',
+                        'kopf._cogs.configs.conventions.StorageKeyMarkingConvention._store_marker',
+                        'kopf._cogs.configs.conventions.StorageKeyMarkingConvention._detect_marked_prefixes'],
+         props=['C04'],
+         clauses=['stanzas_exact', 'marker_iff', 'marker_write', 'detect_iff', 'detect_result', 'detect_starts_empty'],
+         canaries=['canary.stanzas_untouched', 'canary.marker_always', 'canary.detect_everything'],
+         assumes=['essences are JSON objects whose `metadata`, if present, is an object (built by DiffBaseStorage.build from a Kubernetes body)',
+                  '_detect_marked_prefixes: the (prefix, name) pairs come from `key.split("/", 1)` of the keys containing "/" -- that '
+                  'generator expression and remove_annotations are checked in E2b (no symbolic str.split / dict iteration in the engine)'])
+def E2(vc):
+    """
+    The non-recursive helpers of conventions.py, for ALL inputs:
+     remove_empty_stanzas (branch 0; essence = arbitrary JSON object):
+      stanzas_exact   afterwards the essence equals the input with: metadata.annotations / metadata.labels removed iff present and
+                      empty; then metadata removed iff present and empty; status removed iff present and falsy; nothing else changed
+     _store_marker (branch 1; arbitrary prefix string, arbitrary body/patch annotations):
+      marker_iff      `<prefix>/kopf-managed` is written iff the prefix is non-empty, does not start with "kopf." and the marker is
+                      neither on the body nor already in the patch
+      marker_write    the only write is patch.metadata.annotations['<prefix>/kopf-managed'] = 'yes'; only that key is looked up
+     _detect_marked_prefixes (branch 2; loop contract: one arbitrary (prefix, name) pair from an arbitrary collected set):
+      detect_iff      the prefix is collected iff name is a known marker (kopf-managed) or the prefix is kopf.zalando.org or a
+                      subdomain of it; nothing but this prefix is collected;  detect_starts_empty: the collection starts empty;
+      detect_result   the returned collection holds exactly what was collected
+    """
+    import z3
+    from pyvc.loader import _STOP
+    from pyvc.values import J
+    from kopf._cogs.configs import conventions
+    which = vc.nondet(3, 'remove_empty_stanzas | _store_marker | _detect_marked_prefixes')
+    if which == 0:
+        essence = vc.json('essence')
+        if vc.concrete:
+            essence = _strip_absent(essence)
+            if not isinstance(essence, dict) or not isinstance(essence.get('metadata', {}), dict):
+                vc.assume(False, 'essence shape')
+            before = copy.deepcopy(essence)
+        else:
+            t = essence.term
+            md = z3.Select(J.fields(t), z3.StringVal('metadata'))
+            vc.assume(J.is_JObj(t), 'the essence is an object')
+            vc.assume(z3.Or(J.is_JAbsent(md), J.is_JObj(md)), 'metadata is an object if present')
+            before = t
+        ld = vc.load('kopf._cogs.configs.conventions', 'StorageStanzaCleaner.remove_empty_stanzas')
+        ld.fn(essence)
+        if vc.concrete:
+            vc.ensure('stanzas_exact', essence == ref_remove_empty_stanzas(before))
+            vc.canary('canary.stanzas_untouched', essence == before)
+            return ('stanzas',)
+        empty_obj = z3.K(z3.StringSort(), J.JAbsent)
+
+        def falsy(x):       # Python truthiness of a present JSON value
+            return z3.Or(J.is_JNull(x), z3.And(J.is_JObj(x), J.fields(x) == empty_obj), z3.And(J.is_JList(x), z3.Length(J.items(x)) == 0),
+                         z3.And(J.is_JStr(x), z3.Length(J.s(x)) == 0), z3.And(J.is_JBool(x), z3.Not(J.b(x))), z3.And(J.is_JInt(x), J.i(x) == 0))
+
+        def dropped_if_empty(x):
+            return z3.If(z3.And(z3.Not(J.is_JAbsent(x)), falsy(x)), J.JAbsent, x)
+        md0 = z3.Select(J.fields(before), z3.StringVal('metadata'))
+        st0 = z3.Select(J.fields(before), z3.StringVal('status'))
+        f1 = J.fields(md0)
+        f1 = z3.Store(f1, z3.StringVal('annotations'), dropped_if_empty(z3.Select(f1, z3.StringVal('annotations'))))
+        f1 = z3.Store(f1, z3.StringVal('labels'), dropped_if_empty(z3.Select(f1, z3.StringVal('labels'))))
+        md1 = z3.If(J.is_JAbsent(md0), J.JAbsent, dropped_if_empty(J.JObj(f1)))
+        expected = J.JObj(z3.Store(z3.Store(J.fields(before), z3.StringVal('metadata'), md1), z3.StringVal('status'), dropped_if_empty(st0)))
+        vc.ensure('stanzas_exact', SBool(essence.term == expected))
+        vc.canary('canary.stanzas_untouched', SBool(essence.term == before))
+        return ('stanzas',)      # (the document itself is not part of the summary: solver models may give objects a non-absent default)
+    if which == 1:
+        prefix = vc.str('prefix')
+        on_body, in_patch = vc.bool('marker in body.metadata.annotations'), vc.bool('marker in patch.metadata.annotations')
+        body_ann, patch_ann = _AbstractAnnotations(on_body), _AbstractAnnotations(in_patch)
+        from pyvc.stubs import Opaque
+        body = Opaque('body', metadata=Opaque('body.metadata', annotations=body_ann))
+        patch = Opaque('patch', metadata=Opaque('patch.metadata', annotations=patch_ann))
+        ld = vc.load('kopf._cogs.configs.conventions', 'StorageKeyMarkingConvention._store_marker')
+        ld.fn(Opaque('self'), prefix, patch, body)
+        marker = prefix + '/kopf-managed'
+        nonempty = (prefix.vc_len() > 0) if isinstance(prefix, SStr) else len(prefix) > 0
+        expect = And(nonempty, Not(prefix.startswith('kopf.')), Not(on_body), Not(in_patch))
+        vc.ensure('marker_iff', Iff(len(patch_ann.written) == 1, expect))
+        vc.ensure('marker_write', len(patch_ann.written) <= 1 and len(body_ann.written) == 0)
+        for k, v in patch_ann.written:
+            vc.ensure('marker_write', And(Eq(k, marker), v == 'yes'))
+        for k in body_ann.asked + patch_ann.asked:
+            vc.ensure('marker_write', Eq(k, marker))
+        vc.canary('canary.marker_always', len(patch_ann.written) == 1)
+        return ('marker', len(patch_ann.written))
+    # ---- _detect_marked_prefixes
+    cls = conventions.StorageKeyMarkingConvention
+    markers = _SymContainer(getattr(cls, '_StorageKeyMarkingConvention__KNOWN_MARKERS'))
+    known = _SymContainer(getattr(cls, '_StorageKeyMarkingConvention__KNOWN_PREFIXES'))
+    from pyvc.stubs import Opaque
+    me = Opaque('self', **{'__KNOWN_MARKERS': markers, '__KNOWN_PREFIXES': known})     # the names as the extracted def spells them
+    prefix, name = vc.str('prefix'), vc.str('name')
+    collector = _AbstractCollector()
+
+    def at_entry(loc):
+        p = loc.get('prefixes')
+        vc.ensure('detect_starts_empty', isinstance(p, (set, frozenset)) and len(p) == 0)
+
+    def element(loc, iterable):
+        return _STOP if vc.nondet(2, 'exhausted?') == 0 else (prefix, name)
+
+    def at_backedge(loc):
+        spec = Or(Eq(name, 'kopf-managed'), Eq(prefix, 'kopf.zalando.org'), prefix.endswith('.kopf.zalando.org'))
+        vc.ensure('detect_iff', Iff(len(collector.added) >= 1, spec))
+        for x in collector.added:
+            vc.ensure('detect_iff', Eq(x, prefix))
+        vc.ensure('detect_iff', loc.get('prefixes') is collector)
+        vc.canary('canary.detect_everything', len(collector.added) >= 1)
+    ld = vc.load('kopf._cogs.configs.conventions', 'StorageKeyMarkingConvention._detect_marked_prefixes',
+                 loops={1: LoopSpec('for prefix, name in', havoc=lambda loc: {'prefixes': collector}, element=element,
+                                    at_entry=at_entry, at_backedge=at_backedge, rebinds=('prefixes',))})
+    collector.added.append('previously-collected.example.com')     # the arbitrary earlier content, as far as the exit path can see it
+    del collector.added[:]
+    result = ld.fn(me, ['unused/key'])
+    # exit path: the loop ended at the havocked head; the result is exactly the collection
+    vc.ensure('detect_result', isinstance(result, (set, frozenset)) and set(result) == set(collector.added))
+    return ('detect', len(result))
+
+
+# =========================================================================== E2b (bounded remainder of E2)
+E2B_KEYS = ('plain', 'kopf-managed', 'x.example.com/y', 'x.example.com/kopf-managed', 'x.example.com/y/kopf-managed',
+            'kopf.zalando.org/a', 'sub.kopf.zalando.org/b', 'notkopf.zalando.org/c', '/kopf-managed', 'z.example.com/',
+            'kopf.zalando.org', 'kopf.dev/kopf-managed')
+
+
+def ref_marked_prefixes(keys):
+    """Class docstring of StorageKeyMarkingConvention: a `domain/` prefix is another Kopf operator's iff one of its names is the
+    marker `kopf-managed`, or the prefix is kopf.zalando.org or a subdomain of it.  prefix/name = split at the FIRST slash."""
+    out = set()
+    for key in keys:
+        if '/' not in key:
+            continue
+        prefix, _, name = key.partition('/')
+        if name == 'kopf-managed' or prefix == 'kopf.zalando.org' or prefix.endswith('.kopf.zalando.org'):
+            out.add(prefix)
+    return out
+
+
+@bounded('E2b', targets=['kopf._cogs.configs.conventions.StorageKeyMarkingConvention._detect_marked_prefixes',
+                         'kopf._cogs.configs.conventions.StorageStanzaCleaner.remove_annotations'],
+         props=['C04'], clauses=['detect_marked_prefixes', 'remove_annotations', 'remove_annotations_frame'],
+         universe='_detect_marked_prefixes: every subset of 12 annotation keys (no slash, several slashes, empty prefix/name, marker, known '
+                  'prefix, subdomain, look-alike domain) as dict / list / frozenset (3 x 4096); remove_annotations: essences {no metadata, '
+                  'metadata without annotations, every subset of 4 annotations} x every subset of 5 keys to remove (one not present) '
+                  'as set / list / tuple; exhaustive')
+def E2b(b):
+    """
+    The parts of E2 the engine cannot take symbolically (str.split on symbolic strings, iteration over a symbolic mapping):
+      detect_marked_prefixes   _detect_marked_prefixes(keys) == the reference reading of the class docstring, for every key set
+      remove_annotations       afterwards metadata.annotations == the old annotations minus keys_to_remove (values unchanged)
+      remove_annotations_frame nothing else in the essence changes; an essence without metadata/annotations is left as it is
+    """
+    from kopf._cogs.configs import conventions
+
+    class Probe(conventions.StorageKeyMarkingConvention, conventions.StorageStanzaCleaner):
+        pass
+    probe = Probe()
+    for n in range(len(E2B_KEYS) + 1):
+        for subset in itertools.combinations(E2B_KEYS, n):
+            want = ref_marked_prefixes(subset)
+            for shape in (dict.fromkeys(subset, 'v'), list(subset), frozenset(subset)):
+                b.case(key=(subset, type(shape).__name__), nontrivial=bool(want))
+                got = probe._detect_marked_prefixes(shape)
+                b.check('detect_marked_prefixes', set(got) == want, lambda: dict(keys=list(subset), got=sorted(got), want=sorted(want)))
+    ann_keys = ('example.com/a', 'b', 'kopf.zalando.org/c', 'kopf.zalando.org/d-ofDRS')
+    removable = ann_keys + ('never/there',)
+    shapes = [{'spec': {'x': 1}}, {'spec': {'x': 1}, 'metadata': {'labels': {'l': 'v'}}}]
+    for n in range(len(ann_keys) + 1):
+        for subset in itertools.combinations(ann_keys, n):
+            shapes.append({'spec': {'x': 1}, 'metadata': {'labels': {'l': 'v'}, 'annotations': {k: f'value of {k}' for k in subset}}, 'status': {'s': 1}})
+    for essence in shapes:
+        for n in range(len(removable) + 1):
+            for rm in itertools.combinations(removable, n):
+                for cast in (set, list, tuple):
+                    e = copy.deepcopy(essence)
+                    probe.remove_annotations(e, cast(rm))
+                    before = essence.get('metadata', {}).get('annotations')
+                    after = e.get('metadata', {}).get('annotations')
+                    b.case(key=(json.dumps(essence, sort_keys=True), rm, cast.__name__), nontrivial=bool(before) and bool(set(rm) & set(before)))
+                    w = lambda: dict(essence=essence, remove=list(rm), result=e)
+                    if before is None:
+                        b.check('remove_annotations_frame', e == essence, w)
+                        continue
+                    b.check('remove_annotations', after == {k: v for k, v in before.items() if k not in rm}, w)
+                    rest = lambda x: {k: ({kk: vv for kk, vv in v.items() if kk != 'annotations'} if k == 'metadata' else v) for k, v in x.items()}
+                    b.check('remove_annotations_frame', rest(e) == rest(essence), w)
